@@ -430,7 +430,7 @@ func init() {
 			fmt.Println(jstr(res.Responses))
 			return 0
 		}
-		n := 500
+		n := 2000
 		if thorough() {
 			n = 40000
 		}
